@@ -311,8 +311,19 @@ func (r *RPCExecuteProgramResponse) DecodeFrom(d *types.Decoder) {
 	}
 	(*types.V1Currency)(&r.TotalCost).DecodeFrom(d)
 	(*types.V1Currency)(&r.FailureRefund).DecodeFrom(d)
-	r.Output = make([]byte, r.OutputLength)
-	d.Read(r.Output)
+	// OutputLength comes from the peer: read the output in bounded steps, so
+	// that memory grows only with the bytes actually received
+	r.Output = nil
+	const maxStep = 1 << 16
+	for rem := r.OutputLength; rem > 0 && d.Err() == nil; {
+		n := min(rem, maxStep)
+		buf := make([]byte, n)
+		if d.Read(buf); d.Err() != nil {
+			return
+		}
+		r.Output = append(r.Output, buf...)
+		rem -= n
+	}
 }
 
 // EncodeTo implements ProtocolObject.
